@@ -1269,9 +1269,13 @@ impl<'a> World<'a> {
         for (n, step) in steps.iter().enumerate() {
             // stop at the first violation, except for the two recorded finding shapes after which the
             // model stays in step with the store (they are reported once and the run goes on)
+            // (a violation of ANOTHER property than the one being checked does not end the run either: what a
+            // restart makes of the state is the C02 question, whatever C01 says about the state before it)
+            let prop = self.prop.clone();
             let stop = self.rep.violations.iter().any(|v| {
-                !(v.rule == "capacity.exceeded"
-                    || v.signature.get("shape").map(|s| s == "remove_while_write_in_flight").unwrap_or(false))
+                (v.property == prop || prop != "C02")
+                    && !(v.rule == "capacity.exceeded"
+                        || v.signature.get("shape").map(|s| s == "remove_while_write_in_flight").unwrap_or(false))
             });
             if self.rep.harness_error.is_some() || stop {
                 break;
@@ -1580,6 +1584,22 @@ impl<'a> World<'a> {
                         &[("shape", shape.into())],
                         format!("cleanup removed {} records, expected {} (held {}, threshold 1638, range set: {})", removed.len(), expected.len(), held.len(), self.range.is_some()),
                     );
+                }
+                // C02, "completed removals stay removed": a key the clean-up took out of the index whose file is still
+                // on disk with no task left to delete it
+                {
+                    let after: BTreeSet<Vec<u8>> = self.node_store().verif_index().into_iter().map(|(k, _, _)| k.to_vec()).collect();
+                    for i in held.iter().copied() {
+                        if !after.contains(&self.keys[i].bytes) && !removed.contains(&i) {
+                            self.rep.probe("cleaned_up_from_index_without_delete_task");
+                            let on_disk = self.store_dir().join(hex::encode(&self.keys[i].bytes)).is_file();
+                            if on_disk && self.keys[i].pending_writes.is_empty() && self.keys[i].pending_deletes == 0 {
+                                self.keys[i].gone_expected = true;
+                            }
+                            self.indexed[i] = false;
+                            self.keys[i].expect = Expect::Absent;
+                        }
+                    }
                 }
                 for i in removed {
                     self.indexed[i] = false;
